@@ -5,7 +5,7 @@
     for every [x] (for numbers and values: every [x] that does not start with a number byte,
     because strtod looks at the whole run of number bytes). *)
 From CJ Require Import Base Dbl Tree LibcNum ParseDefs ParseSpec.
-(* From CJ Require Export ParseListStrtod. *)
+From CJ Require Export ParseListStrtod.
 Local Open Scope Z_scope.
 
 (** * starts *)
@@ -206,3 +206,396 @@ Proof.
   exists pre. split; [exact Hl|]. split; [exact Hlen|].
   intros x. unfold string_l. rewrite Hre; [reflexivity|]. rewrite app_length. lia.
 Qed.
+
+(** * numbers *)
+
+Lemma number_run_len_le : forall n l, (length (number_run n l) <= length l)%nat.
+Proof.
+  induction n as [|n IH]; intros l; [simpl; lia|].
+  destruct l as [|c r]; [simpl; lia|]. cbn [number_run].
+  destruct (number_byte c); [|simpl; lia]. cbn [length]. specialize (IH r). lia.
+Qed.
+
+Lemma number_run_firstn : forall n l k, (k <= length (number_run n l))%nat ->
+  firstn k (number_run n l) = firstn k l.
+Proof.
+  induction n as [|n IH]; intros l k Hk.
+  - cbn [number_run length] in *. assert (k = 0%nat) by lia. subst k. reflexivity.
+  - destruct l as [|c r].
+    + cbn [number_run length] in *. assert (k = 0%nat) by lia. subst k. reflexivity.
+    + cbn [number_run] in *. destruct (number_byte c).
+      * destruct k as [|k]; [reflexivity|]. cbn [length] in Hk. cbn [firstn]. f_equal. apply IH. lia.
+      * cbn [length] in Hk. assert (k = 0%nat) by lia. subst k. reflexivity.
+Qed.
+
+(* the run of the cut text is exactly the cut run: it stops at [x], or at the cap *)
+Lemma number_run_cut : forall n l k x, (k <= length (number_run n l))%nat -> follow_ok x ->
+  number_run n (firstn k l ++ x) = firstn k l.
+Proof.
+  induction n as [|n IH]; intros l k x Hk Hx.
+  - cbn [number_run length] in *. assert (k = 0%nat) by lia. subst k. reflexivity.
+  - destruct k as [|k].
+    + cbn [firstn app]. destruct x as [|c x]; [reflexivity|]. cbn [follow_ok] in Hx.
+      cbn [number_run]. rewrite Hx. reflexivity.
+    + destruct l as [|c r]; [cbn [number_run length] in Hk; lia|].
+      cbn [number_run] in Hk. destruct (number_byte c) eqn:Ec; [|cbn [length] in Hk; lia].
+      cbn [length] in Hk. cbn [firstn app number_run]. rewrite Ec. f_equal. apply IH; [lia|exact Hx].
+Qed.
+
+Lemma skipn_app_len : forall (p x : bytes), skipn (length p) (p ++ x) = x.
+Proof. induction p as [|a p IH]; intros x; [reflexivity|]. cbn [length app skipn]. apply IH. Qed.
+
+Section WithStrtod.
+  Variable strtod : bytes -> option (dbl * nat).
+  Hypothesis Hok : strtod_ok strtod.
+  Hypothesis Hstable : strtod_stable strtod.
+
+  Lemma number_l_pre : forall l t rest, number_l strtod l = Some (t, rest) ->
+    exists pre, l = pre ++ rest /\ (1 <= length pre)%nat /\
+      forall x, follow_ok x -> number_l strtod (pre ++ x) = Some (t, x).
+  Proof.
+    intros l t rest H. unfold number_l in H.
+    set (n := Z.to_nat (c_NUMBER_C_STRING_SIZE - 1)) in *.
+    destruct (strtod (number_run n l)) as [[d k]|] eqn:Hs; [|discriminate H].
+    inversion H; subst t rest. clear H.
+    pose proof (Hok _ _ _ Hs) as [Hk0 Hk].
+    pose proof (number_run_len_le n l) as Hle.
+    exists (firstn k l). split; [symmetry; apply firstn_skipn|].
+    assert (Hlen : length (firstn k l) = k) by (apply firstn_length_le; lia).
+    split; [lia|].
+    intros x Hx. unfold number_l. fold n.
+    rewrite (number_run_cut n l k x Hk Hx).
+    rewrite <- (number_run_firstn n l k Hk).
+    rewrite (Hstable _ _ _ Hs).
+    rewrite (number_run_firstn n l k Hk).
+    rewrite <- Hlen at 1. rewrite skipn_app_len. reflexivity.
+  Qed.
+
+  (** * containers, given the tail-replacement property of the value parser one level down.
+        [vl' B] is the re-parsing value function run with fuel [B]. *)
+  Section Containers.
+    Variable vl : bytes -> option (node * bytes).
+    Variable vl' : nat -> bytes -> option (node * bytes).
+    Hypothesis Hvl : forall l v r, vl l = Some (v, r) ->
+      exists pre, l = pre ++ r /\ (1 <= length pre)%nat /\
+        forall x B, follow_ok x -> (length pre <= B)%nat -> vl' B (pre ++ x) = Some (v, x).
+
+    (* a value between optional whitespace, followed by a separator or closing byte *)
+    Lemma vl_ctx : forall l0 v r2 c2 r3,
+      vl (drop_ws l0) = Some (v, r2) -> drop_ws r2 = c2 :: r3 -> number_byte c2 = false ->
+      exists pre, l0 = pre ++ c2 :: r3 /\ (1 <= length pre)%nat /\
+        forall y B, (length pre <= B)%nat ->
+          exists r2', vl' B (drop_ws (pre ++ c2 :: y)) = Some (v, r2') /\ drop_ws r2' = c2 :: y.
+    Proof.
+      intros l0 v r2 c2 r3 Hv Hd Hc2.
+      destruct (Hvl _ _ _ Hv) as [pre1 [Hl [Hlen Hre]]].
+      destruct (drop_ws_spec _ _ _ Hd) as [ws2 [Hr2 [Hws2 Hc2']]].
+      destruct pre1 as [|c0 p1]; [simpl in Hlen; lia|].
+      cbn [app] in Hl.
+      destruct (drop_ws_spec _ _ _ Hl) as [ws0 [Hl0 [Hws0 Hc0]]].
+      exists (ws0 ++ (c0 :: p1) ++ ws2). split.
+      { rewrite Hl0, Hr2. rewrite <- !app_assoc. reflexivity. }
+      split; [rewrite !app_length; simpl; lia|].
+      intros y B HB. rewrite !app_length in HB.
+      exists (ws2 ++ c2 :: y). split.
+      - rewrite <- !app_assoc. cbn [app]. rewrite drop_ws_ws by assumption.
+        apply (Hre (ws2 ++ c2 :: y) B); [apply follow_ok_ws; assumption|lia].
+      - apply drop_ws_ws; assumption.
+    Qed.
+
+    Lemma elems_l_pre : forall k l0 acc items rest, elems_l vl k l0 acc = Some (items, rest) ->
+      exists pre, l0 = pre ++ rest /\ (1 <= length pre)%nat /\
+        forall x k' B, (length pre <= k')%nat -> (length pre <= B)%nat ->
+          elems_l (vl' B) k' (pre ++ x) acc = Some (items, x).
+    Proof.
+      induction k as [|k IH]; intros l0 acc items rest H; [discriminate H|].
+      cbn [elems_l] in H.
+      destruct (vl (drop_ws l0)) as [[v r2]|] eqn:Hv; [|discriminate H].
+      destruct (drop_ws r2) as [|c2 r3] eqn:Hd; [discriminate H|].
+      destruct (Z.eqb_spec c2 44) as [E44|E44].
+      - subst c2. destruct (vl_ctx _ _ _ _ _ Hv Hd eq_refl) as [pa [Hl0 [Hlen Hre]]].
+        destruct (IH _ _ _ _ H) as [p3 [Hr3 [Hlen3 Hre3]]].
+        exists (pa ++ 44 :: p3). split; [rewrite Hl0, Hr3, <- app_assoc; reflexivity|].
+        split; [rewrite app_length; simpl; lia|].
+        intros x k' B Hk' HB. rewrite app_length in Hk', HB. cbn [length] in Hk', HB.
+        destruct k' as [|k']; [lia|].
+        rewrite <- app_assoc. cbn [app elems_l].
+        destruct (Hre (p3 ++ x) B) as [r2' [H1 H2]]; [lia|].
+        rewrite H1, H2. cbn [Z.eqb Pos.eqb]. apply Hre3; lia.
+      - destruct (Z.eqb_spec c2 93) as [E93|E93]; [|discriminate H].
+        subst c2. inversion H; subst items rest. clear H.
+        destruct (vl_ctx _ _ _ _ _ Hv Hd eq_refl) as [pa [Hl0 [Hlen Hre]]].
+        exists (pa ++ [93]). split; [rewrite Hl0, <- app_assoc; reflexivity|].
+        split; [rewrite app_length; simpl; lia|].
+        intros x k' B Hk' HB. rewrite app_length in Hk', HB. cbn [length] in Hk', HB.
+        destruct k' as [|k']; [lia|].
+        rewrite <- app_assoc. cbn [app elems_l].
+        destruct (Hre x B) as [r2' [H1 H2]]; [lia|].
+        rewrite H1, H2. reflexivity.
+    Qed.
+
+    Lemma array_l_pre : forall r t rest, array_l vl r = Some (t, rest) ->
+      exists pre, r = pre ++ rest /\ (1 <= length pre)%nat /\
+        forall x B, (length pre <= B)%nat -> array_l (vl' B) (pre ++ x) = Some (t, x).
+    Proof.
+      intros r t rest H. unfold array_l in H.
+      destruct (drop_ws r) as [|c1 r1] eqn:Hd; [discriminate H|].
+      destruct (drop_ws_spec _ _ _ Hd) as [ws [Hr [Hws Hc1]]].
+      destruct (c1 =? 93) eqn:E93.
+      - inversion H; subst t rest. clear H.
+        exists (ws ++ [c1]). split; [rewrite Hr, <- app_assoc; reflexivity|].
+        split; [rewrite app_length; simpl; lia|].
+        intros x B HB. unfold array_l. rewrite <- app_assoc. cbn [app].
+        rewrite drop_ws_ws by assumption. rewrite E93. reflexivity.
+      - destruct (elems_l vl (S (length r)) (c1 :: r1) []) as [[items rest2]|] eqn:He; [|discriminate H].
+        inversion H; subst t rest2. clear H.
+        destruct (elems_l_pre _ _ _ _ _ He) as [pe [Hl [Hlen Hre]]].
+        destruct pe as [|c1' pe]; [simpl in Hlen; lia|].
+        cbn [app] in Hl. injection Hl as Hc Hr1. subst c1'.
+        exists (ws ++ c1 :: pe). split; [rewrite Hr, Hr1, <- app_assoc; reflexivity|].
+        split; [rewrite app_length; simpl; lia|].
+        intros x B HB. rewrite app_length in HB. cbn [length] in HB.
+        unfold array_l. rewrite <- app_assoc. cbn [app].
+        rewrite drop_ws_ws by assumption. rewrite E93.
+        change (c1 :: pe ++ x) with ((c1 :: pe) ++ x).
+        rewrite Hre; [reflexivity| |].
+        + rewrite !app_length. cbn [length]. lia.
+        + cbn [length]. lia.
+    Qed.
+
+    (* key and colon *)
+    Lemma key_ctx : forall l0 q rq key r2 col r3,
+      drop_ws l0 = q :: rq -> string_l rq = Some (key, r2) -> drop_ws r2 = col :: r3 ->
+      exists pk, l0 = pk ++ r3 /\ (1 <= length pk)%nat /\
+        forall y, exists rq' r2', drop_ws (pk ++ y) = q :: rq' /\ string_l rq' = Some (key, r2') /\
+                                  drop_ws r2' = col :: y.
+    Proof.
+      intros l0 q rq key r2 col r3 Hd Hs Hd2.
+      destruct (drop_ws_spec _ _ _ Hd) as [ws0 [Hl0 [Hws0 Hq]]].
+      destruct (string_l_pre _ _ _ Hs) as [ps [Hrq [Hpslen Hps]]].
+      destruct (drop_ws_spec _ _ _ Hd2) as [ws2 [Hr2 [Hws2 Hcol]]].
+      exists (ws0 ++ q :: ps ++ ws2 ++ [col]). split.
+      { rewrite Hl0, Hrq, Hr2. rewrite <- !app_assoc. cbn [app]. rewrite <- !app_assoc. reflexivity. }
+      split; [rewrite !app_length; simpl; lia|].
+      intros y. exists (ps ++ ws2 ++ col :: y), (ws2 ++ col :: y).
+      split; [|split].
+      - rewrite <- !app_assoc. cbn [app]. rewrite <- !app_assoc. cbn [app].
+        apply drop_ws_ws; assumption.
+      - apply Hps.
+      - apply drop_ws_ws; assumption.
+    Qed.
+
+    Lemma members_l_pre : forall k l0 acc items rest, members_l vl k l0 acc = Some (items, rest) ->
+      exists pre, l0 = pre ++ rest /\ (1 <= length pre)%nat /\
+        forall x k' B, (length pre <= k')%nat -> (length pre <= B)%nat ->
+          members_l (vl' B) k' (pre ++ x) acc = Some (items, x).
+    Proof.
+      induction k as [|k IH]; intros l0 acc items rest H; [discriminate H|].
+      cbn [members_l] in H.
+      destruct (drop_ws l0) as [|q rq] eqn:Hd0; [discriminate H|].
+      destruct (q =? 34) eqn:Eq; cbn [negb] in H; [|discriminate H].
+      destruct (string_l rq) as [[key r2]|] eqn:Hs; [|discriminate H].
+      destruct (drop_ws r2) as [|col r3] eqn:Hd2; [discriminate H|].
+      destruct (col =? 58) eqn:Ecol; cbn [negb] in H; [|discriminate H].
+      destruct (vl (drop_ws r3)) as [[v0 r4]|] eqn:Hv; [|discriminate H].
+      cbv zeta in H.
+      destruct (drop_ws r4) as [|c2 r5] eqn:Hd4; [discriminate H|].
+      destruct (key_ctx _ _ _ _ _ _ _ Hd0 Hs Hd2) as [pk [Hl0 [Hpklen Hpk]]].
+      destruct (Z.eqb_spec c2 44) as [E44|E44].
+      - subst c2. destruct (vl_ctx _ _ _ _ _ Hv Hd4 eq_refl) as [pa [Hr3 [Hlen Hre]]].
+        destruct (IH _ _ _ _ H) as [p5 [Hr5 [Hlen5 Hre5]]].
+        exists (pk ++ pa ++ 44 :: p5). split; [rewrite Hl0, Hr3, Hr5, <- !app_assoc; reflexivity|].
+        split; [rewrite !app_length; simpl; lia|].
+        intros x k' B Hk' HB. rewrite !app_length in Hk', HB. cbn [length] in Hk', HB.
+        destruct k' as [|k']; [lia|].
+        rewrite <- !app_assoc. cbn [app members_l].
+        destruct (Hpk (pa ++ 44 :: p5 ++ x)) as [rq' [r2' [K1 [K2 K3]]]].
+        rewrite K1, Eq. cbn [negb]. rewrite K2, K3, Ecol. cbn [negb].
+        destruct (Hre (p5 ++ x) B) as [r4' [H1 H2]]; [lia|].
+        rewrite H1. cbv zeta. rewrite H2. cbn [Z.eqb Pos.eqb]. apply Hre5; lia.
+      - destruct (Z.eqb_spec c2 125) as [E125|E125]; [|discriminate H].
+        subst c2. inversion H; subst items rest. clear H.
+        destruct (vl_ctx _ _ _ _ _ Hv Hd4 eq_refl) as [pa [Hr3 [Hlen Hre]]].
+        exists (pk ++ pa ++ [125]). split; [rewrite Hl0, Hr3, <- !app_assoc; reflexivity|].
+        split; [rewrite !app_length; simpl; lia|].
+        intros x k' B Hk' HB. rewrite !app_length in Hk', HB. cbn [length] in Hk', HB.
+        destruct k' as [|k']; [lia|].
+        rewrite <- !app_assoc. cbn [app members_l].
+        destruct (Hpk (pa ++ 125 :: x)) as [rq' [r2' [K1 [K2 K3]]]].
+        rewrite K1, Eq. cbn [negb]. rewrite K2, K3, Ecol. cbn [negb].
+        destruct (Hre x B) as [r4' [H1 H2]]; [lia|].
+        rewrite H1. cbv zeta. rewrite H2. reflexivity.
+    Qed.
+
+    Lemma object_l_pre : forall r t rest, object_l vl r = Some (t, rest) ->
+      exists pre, r = pre ++ rest /\ (1 <= length pre)%nat /\
+        forall x B, (length pre <= B)%nat -> object_l (vl' B) (pre ++ x) = Some (t, x).
+    Proof.
+      intros r t rest H. unfold object_l in H.
+      destruct (drop_ws r) as [|c1 r1] eqn:Hd; [discriminate H|].
+      destruct (drop_ws_spec _ _ _ Hd) as [ws [Hr [Hws Hc1]]].
+      destruct (c1 =? 125) eqn:E125.
+      - inversion H; subst t rest. clear H.
+        exists (ws ++ [c1]). split; [rewrite Hr, <- app_assoc; reflexivity|].
+        split; [rewrite app_length; simpl; lia|].
+        intros x B HB. unfold object_l. rewrite <- app_assoc. cbn [app].
+        rewrite drop_ws_ws by assumption. rewrite E125. reflexivity.
+      - destruct (members_l vl (S (length r)) (c1 :: r1) []) as [[items rest2]|] eqn:He; [|discriminate H].
+        inversion H; subst t rest2. clear H.
+        destruct (members_l_pre _ _ _ _ _ He) as [pe [Hl [Hlen Hre]]].
+        destruct pe as [|c1' pe]; [simpl in Hlen; lia|].
+        cbn [app] in Hl. injection Hl as Hc Hr1. subst c1'.
+        exists (ws ++ c1 :: pe). split; [rewrite Hr, Hr1, <- app_assoc; reflexivity|].
+        split; [rewrite app_length; simpl; lia|].
+        intros x B HB. rewrite app_length in HB. cbn [length] in HB.
+        unfold object_l. rewrite <- app_assoc. cbn [app].
+        rewrite drop_ws_ws by assumption. rewrite E125.
+        change (c1 :: pe ++ x) with ((c1 :: pe) ++ x).
+        rewrite Hre; [reflexivity| |].
+        + rewrite !app_length. cbn [length]. lia.
+        + cbn [length]. lia.
+    Qed.
+  End Containers.
+
+  (** * values *)
+
+  Lemma value_l_S_nonlit : forall f d c r, c <> 110 -> c <> 102 -> c <> 116 ->
+    value_l strtod (S f) d (c :: r) =
+      if c =? 34 then
+        match string_l r with
+        | Some (s, rest) => Some (Node c_cJSON_String (Some s) 0 dzero None [], rest)
+        | None => None
+        end
+      else if (c =? 45) || ((48 <=? c) && (c <=? 57)) then number_l strtod (c :: r)
+      else if c =? 91 then
+        if c_CJSON_NESTING_LIMIT <=? d then None else array_l (value_l strtod f (d + 1)) r
+      else if c =? 123 then
+        if c_CJSON_NESTING_LIMIT <=? d then None else object_l (value_l strtod f (d + 1)) r
+      else None.
+  Proof.
+    intros f d c r H1 H2 H3. cbn [value_l]. rewrite !starts_hd_ne by assumption. reflexivity.
+  Qed.
+
+  Lemma value_l_pre : forall f d l t rest, value_l strtod f d l = Some (t, rest) ->
+    exists pre, l = pre ++ rest /\ (1 <= length pre)%nat /\
+      forall x f', follow_ok x -> (length pre <= f')%nat ->
+        value_l strtod f' d (pre ++ x) = Some (t, x).
+  Proof.
+    induction f as [|f IH]; intros d l t rest H; [discriminate H|].
+    cbn [value_l] in H.
+    destruct (starts [110; 117; 108; 108] l) as [r|] eqn:Enull.
+    { inversion H; subst t r. clear H. apply starts_app in Enull.
+      exists [110; 117; 108; 108]. split; [exact Enull|]. split; [simpl; lia|].
+      intros x f' Hx Hf. destruct f' as [|f']; [simpl in Hf; lia|].
+      cbn [value_l]. rewrite starts_lit_app. reflexivity. }
+    destruct (starts [102; 97; 108; 115; 101] l) as [r|] eqn:Efalse.
+    { inversion H; subst t r. clear H. apply starts_app in Efalse.
+      exists [102; 97; 108; 115; 101]. split; [exact Efalse|]. split; [simpl; lia|].
+      intros x f' Hx Hf. destruct f' as [|f']; [simpl in Hf; lia|].
+      cbn [value_l]. rewrite starts_lit_app. cbn [app]. rewrite starts_hd_ne by lia. reflexivity. }
+    destruct (starts [116; 114; 117; 101] l) as [r|] eqn:Etrue.
+    { inversion H; subst t r. clear H. apply starts_app in Etrue.
+      exists [116; 114; 117; 101]. split; [exact Etrue|]. split; [simpl; lia|].
+      intros x f' Hx Hf. destruct f' as [|f']; [simpl in Hf; lia|].
+      cbn [value_l]. rewrite starts_lit_app. cbn [app]. rewrite !starts_hd_ne by lia. reflexivity. }
+    destruct l as [|c r]; [discriminate H|].
+    destruct (Z.eqb_spec c 34) as [E34|E34].
+    { (* string *)
+      destruct (string_l r) as [[s rest2]|] eqn:Hs; [|discriminate H].
+      inversion H; subst t rest2. clear H.
+      destruct (string_l_pre _ _ _ Hs) as [ps [Hr [Hlen Hre]]].
+      exists (c :: ps). split; [rewrite Hr; reflexivity|]. split; [simpl; lia|].
+      intros x f' Hx Hf. destruct f' as [|f']; [simpl in Hf; lia|].
+      cbn [app]. rewrite value_l_S_nonlit by lia.
+      destruct (Z.eqb_spec c 34) as [_|Hne]; [|contradiction]. rewrite Hre. reflexivity. }
+    destruct ((c =? 45) || ((48 <=? c) && (c <=? 57))) eqn:Enum.
+    { (* number *)
+      destruct (number_l_pre _ _ _ H) as [pn [Hl [Hlen Hre]]].
+      destruct pn as [|c' pn]; [simpl in Hlen; lia|].
+      cbn [app] in Hl. injection Hl as Hc Hr. subst c'.
+      exists (c :: pn). split; [rewrite Hr; reflexivity|]. split; [simpl; lia|].
+      intros x f' Hx Hf. destruct f' as [|f']; [simpl in Hf; lia|].
+      assert (Hrange : c = 45 \/ 48 <= c <= 57).
+      { apply orb_true_iff in Enum as [E|E]; [left; apply Z.eqb_eq; exact E|right].
+        apply andb_true_iff in E as [E1 E2]. apply Z.leb_le in E1. apply Z.leb_le in E2. lia. }
+      cbn [app]. rewrite value_l_S_nonlit by lia.
+      destruct (Z.eqb_spec c 34) as [Heq|_]; [contradiction|]. rewrite Enum.
+      apply (Hre x Hx). }
+    destruct (Z.eqb_spec c 91) as [E91|E91].
+    { (* array *)
+      destruct (c_CJSON_NESTING_LIMIT <=? d) eqn:Edepth; [discriminate H|].
+      destruct (array_l_pre (value_l strtod f (d + 1)) (fun B => value_l strtod B (d + 1))
+                  (IH (d + 1)) _ _ _ H) as [pa [Hr [Hlen Hre]]].
+      exists (c :: pa). split; [rewrite Hr; reflexivity|]. split; [simpl; lia|].
+      intros x f' Hx Hf. destruct f' as [|f']; [simpl in Hf; lia|]. cbn [length] in Hf.
+      cbn [app]. rewrite value_l_S_nonlit by lia.
+      destruct (Z.eqb_spec c 34) as [Heq|_]; [contradiction|]. rewrite Enum.
+      destruct (Z.eqb_spec c 91) as [_|Hne]; [|contradiction]. rewrite Edepth.
+      apply (Hre x f'). lia. }
+    destruct (Z.eqb_spec c 123) as [E123|E123]; [|discriminate H].
+    { (* object *)
+      destruct (c_CJSON_NESTING_LIMIT <=? d) eqn:Edepth; [discriminate H|].
+      destruct (object_l_pre (value_l strtod f (d + 1)) (fun B => value_l strtod B (d + 1))
+                  (IH (d + 1)) _ _ _ H) as [pa [Hr [Hlen Hre]]].
+      exists (c :: pa). split; [rewrite Hr; reflexivity|]. split; [simpl; lia|].
+      intros x f' Hx Hf. destruct f' as [|f']; [simpl in Hf; lia|]. cbn [length] in Hf.
+      cbn [app]. rewrite value_l_S_nonlit by lia.
+      destruct (Z.eqb_spec c 34) as [Heq|_]; [contradiction|]. rewrite Enum.
+      destruct (Z.eqb_spec c 91) as [Heq|_]; [contradiction|].
+      destruct (Z.eqb_spec c 123) as [_|Hne]; [|contradiction]. rewrite Edepth.
+      apply (Hre x f'). lia. }
+  Qed.
+
+  (** * whole texts *)
+
+  Theorem text_l_prefix_sec : forall l t rest,
+    text_l strtod l false = Some (t, rest) ->
+    exists pre, l = pre ++ rest /\ text_l strtod pre false = Some (t, []).
+  Proof.
+    intros l t rest H. unfold text_l in H.
+    set (l1 := match starts [239; 187; 191] l with Some r => r | None => l end) in *.
+    destruct (value_l strtod (S (length l)) 0 (drop_ws l1)) as [[t' rest']|] eqn:Hv; [|discriminate H].
+    inversion H; subst t' rest'. clear H.
+    destruct (value_l_pre _ _ _ _ _ Hv) as [pv [Hd [Hlen Hre]]].
+    destruct pv as [|c pv]; [simpl in Hlen; lia|].
+    cbn [app] in Hd.
+    destruct (drop_ws_spec _ _ _ Hd) as [ws [Hl1 [Hws Hc]]].
+    assert (Hval : forall n, (length (c :: pv) <= n)%nat ->
+                     value_l strtod n 0 (drop_ws (ws ++ c :: pv)) = Some (t, [])).
+    { intros n Hn. rewrite drop_ws_ws by assumption.
+      rewrite <- (app_nil_r (c :: pv)). apply Hre; [exact I|exact Hn]. }
+    destruct (starts [239; 187; 191] l) as [r|] eqn:Ebom; subst l1.
+    - apply starts_app in Ebom.
+      exists ([239; 187; 191] ++ ws ++ c :: pv). split.
+      { rewrite Ebom, Hl1. rewrite <- !app_assoc. reflexivity. }
+      unfold text_l. rewrite starts_lit_app. rewrite Hval; [reflexivity|].
+      rewrite !app_length. cbn [length]. lia.
+    - exists (ws ++ c :: pv). split.
+      { rewrite Hl1. rewrite <- !app_assoc. reflexivity. }
+      unfold text_l.
+      destruct (starts [239; 187; 191] (ws ++ c :: pv)) as [q|] eqn:Ebom2.
+      { apply (starts_mono _ _ _ rest) in Ebom2.
+        rewrite <- app_assoc in Ebom2. cbn [app] in Ebom2. rewrite <- Hl1 in Ebom2. congruence. }
+      rewrite Hval; [reflexivity|]. rewrite !app_length. cbn [length]. lia.
+  Qed.
+End WithStrtod.
+
+Theorem text_l_prefix : forall strtod l t rest,
+  strtod_ok strtod -> strtod_stable strtod ->
+  text_l strtod l false = Some (t, rest) ->
+  exists pre, l = pre ++ rest /\ text_l strtod pre false = Some (t, []).
+Proof.
+  intros strtod l t rest Hok Hstable H. exact (text_l_prefix_sec strtod Hok Hstable l t rest H).
+Qed.
+
+(* the hypotheses are satisfiable: the executable reference strtod meets both *)
+Corollary text_l_prefix_ref : forall l t rest,
+  text_l strtod_ref l false = Some (t, rest) ->
+  exists pre, l = pre ++ rest /\ text_l strtod_ref pre false = Some (t, []).
+Proof.
+  intros l t rest H.
+  exact (text_l_prefix strtod_ref l t rest (proj1 strtod_ref_contract) (proj2 strtod_ref_contract) H).
+Qed.
+
+Print Assumptions text_l_prefix_ref.
+Print Assumptions text_l_prefix.
